@@ -124,7 +124,13 @@ func (o *Optimizer) optimizeSelectExpressions(stmt *SelectStmt) {
 	for i, field := range stmt.Fields {
 		// fmt.Println("Before opt", field)
 		eo.Root = field
-		stmt.Fields[i] = eo.Optimize()
+		optimized := eo.Optimize()
+		if o.findAggrFunc(field) && !o.findAggrFunc(optimized) {
+			// The simplification drops the aggregate function of the field
+			// (count(1) > 0 | 1 = 1), the field must stay an aggregate field
+			continue
+		}
+		stmt.Fields[i] = optimized
 		// fmt.Println("After opt", o.stmt.Fields[i])
 	}
 }
